@@ -80,7 +80,8 @@ Theorem C12_copy_error : forall c pre i post sched o z,
 Proof. exact copier_error. Qed.
 Print Assumptions C12_copy_error.
 
-(* Sparse copy, code as it is.  For data ranges that are ascending, non-empty, inside F, with F
+(* Sparse copy as in the original snapshot (model parameter c_fix = false; /repo now carries the repair,
+   see C12_sparse_repaired).  For data ranges that are ascending, non-empty, inside F, with F
    zero outside them: success, and the destination is F cut after its last data byte; holes between
    data ranges arrive as zeros.  So the copy is exact when F does not end in a hole.
    PARTIAL: the property also demands exactness when F ends in a hole; see the next theorem. *)
@@ -96,7 +97,7 @@ Theorem C12_sparse_partial : forall F bs mx total ranges sched,
 Proof. exact copier_sparse_no_trailing_hole. Qed.
 Print Assumptions C12_sparse_partial.
 
-(* The faithful model of the unchanged code violates the statement for a file ending in a hole:
+(* The faithful model of the snapshot code violates the statement for a file ending in a hole:
    the copy reports success and the destination is shorter than the source. *)
 Theorem C12_sparse_trailing_hole_refuted :
   exists F ranges total sched,
@@ -108,8 +109,8 @@ Theorem C12_sparse_trailing_hole_refuted :
 Proof. exact sparse_trailing_hole_witness. Qed.
 Print Assumptions C12_sparse_trailing_hole_refuted.
 
-(* Sparse copy with the proposed repair (one zero byte written at total-1 when the last data range
-   ends before total): exact for every hole layout, every schedule. *)
+(* Sparse copy with the repair that /repo now carries (one zero byte written at total-1 when the last
+   data range ends before total): exact for every hole layout, every schedule. *)
 Theorem C12_sparse_repaired : forall F bs mx ranges sched,
   0 < bs -> 0 < mx ->
   ranges_sorted 0 ranges = true -> ranges_end 0 ranges <= zlen F ->
@@ -120,6 +121,29 @@ Theorem C12_sparse_repaired : forall F bs mx ranges sched,
   copier_dst (copier_run bs mx (zlen F) true true ranges sched) = F.
 Proof. exact copier_sparse_fixed. Qed.
 Print Assumptions C12_sparse_repaired.
+
+(* What the copier does with the total it is given: for ANY announced total <= |F| (sparse, repaired)
+   exactly the first total bytes arrive and success is reported -- as C12_copy says for the
+   non-sparse case.  The copier trusts total; C12_copy_total below says where total comes from. *)
+Theorem C12_sparse_repaired_total : forall F bs mx total ranges sched,
+  0 < bs -> 0 < mx -> 0 <= total <= zlen F ->
+  ranges_sorted 0 ranges = true -> ranges_end 0 ranges <= total ->
+  (forall q, 0 <= q < total -> in_ranges ranges q = false -> znth F q = 0) ->
+  copier_honest F (copier_init bs mx total true true ranges) sched = true ->
+  c_status (copier_run bs mx total true true ranges sched) <> CRunning ->
+  c_status (copier_run bs mx total true true ranges sched) = COk /\
+  copier_dst (copier_run bs mx total true true ranges sched) = ztake total F.
+Proof. exact copier_sparse_fixed_total. Qed.
+Print Assumptions C12_sparse_repaired_total.
+
+(* Recursive copy driver (SFTPClient._copy): whenever a file copier is started, the total_bytes it
+   gets is the size reported by stat for the file that open() will open -- also when the entry came
+   from a directory listing or a glob as a symlink (lstat attributes) and follow_symlinks is set.
+   Hypothesis: for anything that is not a symlink, lstat and stat agree. *)
+Theorem C12_copy_total : forall follow lst st t,
+  (a_type lst <> 3 -> lst = st) -> copy_total follow lst st = Some t -> t = a_size st.
+Proof. exact copy_total_is_stat_size. Qed.
+Print Assumptions C12_copy_total.
 
 (* The ranges _request_ranges computes for any well-formed hole layout (extents ascending,
    separated, inside the file; zeros outside them) meet the hypotheses of the sparse theorems. *)
@@ -177,3 +201,16 @@ Example C12_sparse_example :
   c_status (copier_run 1 2 6 true false ranges sched) = COk /\
   copier_dst (copier_run 1 2 6 true false ranges sched) = F.
 Proof. vm_compute. repeat split; reflexivity. Qed.
+
+(* non-vacuity: writes acknowledged out of order; a source that ends early *)
+Example C12_write_example :
+  let sched := [[(1%nat, WOk)]; [(0%nat, WOk)]; [(0%nat, WOk)]] in
+  honest_run (writer_handle 1 [1;2;3;4;5]) honest_write (writer_init 2 2 1 [1;2;3;4;5] [9;9]) sched = true /\
+  mach_result (writer_run 2 2 1 [1;2;3;4;5] [9;9] sched) = Done [9;1;2;3;4;5].
+Proof. vm_compute. split; reflexivity. Qed.
+
+Example C12_copy_short_source_example :
+  let sched := [[(0%nat, CData [1;2])]; [(0%nat, CData [3])]; [(0%nat, CData [])]; [(0%nat, CData [])]] in
+  copier_honest [1;2;3] (copier_init 2 2 5 false false []) sched = true /\
+  c_status (copier_run 2 2 5 false false [] sched) = CFail.
+Proof. vm_compute. split; reflexivity. Qed.
